@@ -26,7 +26,13 @@ def fromNix (n : Int) : Signal :=
 /-- `From<i32>` -/
 def fromI32 (n : Int) : Signal := match fromI32Table.find? (·.1 == n) with | some (_, s) => s | none => .custom n
 
-def upperC (c : Char) : Char := if 'a' ≤ c ∧ c ≤ 'z' then Char.ofNat (c.toNat - 32) else c
+/-- `u8::to_ascii_uppercase` on one character, as a table (so that facts about it are finite case splits) -/
+def upperC (c : Char) : Char :=
+  match c with
+  | 'a' => 'A' | 'b' => 'B' | 'c' => 'C' | 'd' => 'D' | 'e' => 'E' | 'f' => 'F' | 'g' => 'G' | 'h' => 'H' | 'i' => 'I'
+  | 'j' => 'J' | 'k' => 'K' | 'l' => 'L' | 'm' => 'M' | 'n' => 'N' | 'o' => 'O' | 'p' => 'P' | 'q' => 'Q' | 'r' => 'R'
+  | 's' => 'S' | 't' => 'T' | 'u' => 'U' | 'v' => 'V' | 'w' => 'W' | 'x' => 'X' | 'y' => 'Y' | 'z' => 'Z'
+  | c => c
 def lowerC (c : Char) : Char := if 'A' ≤ c ∧ c ≤ 'Z' then Char.ofNat (c.toNat + 32) else c
 def toUpper (s : Str) : Str := s.map upperC
 
